@@ -438,6 +438,24 @@ func (r *Resolver) ArenaResolveGraphQLResponse(ctx *Context, response *GraphQLRe
 		return resp, err
 	}
 
+	// From here on this request is the leader (or not de-duplicated at all). Every return below
+	// finishes the inflight request, but data sources, hooks, authorizers and writers are supplied
+	// by the user: if one of them panics, the followers must not wait for a leader that is gone,
+	// and the entry must not stay in the table, where it would capture every later identical request.
+	defer func() {
+		if p := recover(); p != nil {
+			if inflight != nil {
+				select {
+				case <-inflight.Done:
+					// already finished
+				default:
+					r.inboundRequestSingleFlight.FinishPanicked(inflight, fmt.Errorf("the leader of a de-duplicated request panicked: %v", p))
+				}
+			}
+			panic(p)
+		}
+	}()
+
 	start := time.Now()
 	<-r.maxConcurrency
 	resp.ResolveAcquireWaitTime = time.Since(start)
